@@ -539,6 +539,10 @@ func (r *RowCache) uuidsByConditionsAsIndexes(conditions []ovsdb.Condition, nati
 		if condition.Function == ovsdb.ConditionIncludes && isSet {
 			return nil
 		}
+		if condition.Function == ovsdb.ConditionIncludes && v.Kind() == reflect.Ptr && v.IsNil() {
+			// every row includes the empty set: this is not an equality
+			return nil
+		}
 		keys := []interface{}{}
 		if v.Kind() == reflect.Map && condition.Function == ovsdb.ConditionIncludes {
 			for _, key := range v.MapKeys() {
